@@ -153,18 +153,19 @@ type polCase struct {
 	TZMin     int           `json:"tz_offset_min,omitempty"` // local time zone of the proxy host, minutes east of UTC
 	Start     time.Duration `json:"start"`                   // clock offset from Sat 2000-01-01 00:00 before anything starts
 	// routing
-	FlakyProxy int       `json:"flaky_proxy,omitempty"` // an upstream proxy resets the first N connections it accepts (per listening address)
-	FlakyDial  int       `json:"flaky_dial,omitempty"`  // the first N connection attempts to every address are refused (the dialer retries)
-	Upstream   string    `json:"upstream,omitempty"`    // URL
-	PAC        string    `json:"pac,omitempty"`
-	Direct     []string  `json:"direct,omitempty"`
-	ConnectTo  []string  `json:"connect_to,omitempty"`
-	Creds      []string  `json:"creds,omitempty"`
-	MITM       bool      `json:"mitm"`
-	ProxyName  string    `json:"proxy_name,omitempty"`
-	Conns      []polConn `json:"conns"`
-	WOne       int       `json:"w_one"`
-	WRand      int       `json:"w_rand"`
+	TLSListener bool      `json:"tls_listener,omitempty"` // clients reach the proxy over TLS
+	FlakyProxy  int       `json:"flaky_proxy,omitempty"`  // an upstream proxy resets the first N connections it accepts (per listening address)
+	FlakyDial   int       `json:"flaky_dial,omitempty"`   // the first N connection attempts to every address are refused (the dialer retries)
+	Upstream    string    `json:"upstream,omitempty"`     // URL
+	PAC         string    `json:"pac,omitempty"`
+	Direct      []string  `json:"direct,omitempty"`
+	ConnectTo   []string  `json:"connect_to,omitempty"`
+	Creds       []string  `json:"creds,omitempty"`
+	MITM        bool      `json:"mitm"`
+	ProxyName   string    `json:"proxy_name,omitempty"`
+	Conns       []polConn `json:"conns"`
+	WOne        int       `json:"w_one"`
+	WRand       int       `json:"w_rand"`
 }
 
 // arrival is one request (or tunnel/SOCKS establishment) seen by a recorder node.
@@ -382,6 +383,14 @@ func (w *polWorld) runClient(ci int, script *polConn, s *sut.SUT, mitmCA *x509.C
 	}
 	var conn net.Conn = raw
 	defer func() { conn.Close() }()
+	if w.c.TLSListener {
+		tc := tls.Client(raw, &tls.Config{RootCAs: w.ca.Pool(), ServerName: "proxy.example"})
+		if err := tc.Handshake(); err != nil {
+			env.Fail("harness-client-tls", "", "client %d: TLS handshake with the proxy: %v", ci, err)
+			return
+		}
+		conn = tc
+	}
 	br := bufio.NewReader(conn)
 	if script.MITMHost != "" {
 		var b bytes.Buffer
@@ -575,6 +584,11 @@ func (w *polWorld) start() (*sut.SUT, error) {
 			}
 			if c.MITM {
 				cfg.MITM = forwarder.DefaultMITMConfig()
+			}
+			if c.TLSListener {
+				cp, kp := simtls.PEMPair(w.ca.ValidLeaf("proxy.example", ipSUT))
+				cfg.Protocol = forwarder.HTTPSScheme
+				cfg.CertFile, cfg.KeyFile = simtls.DataURI(cp), simtls.DataURI(kp)
 			}
 		},
 	}
